@@ -272,10 +272,8 @@ def main():
     warm = []
     if os.environ.get("VERIF_CONV_CFG") == "after-foreign":
         for c in req["cases"]:
-            try:
-                warm.append((target(c["target"]), c["input"]))
-            except BaseException:  # noqa
-                pass
+            if c["target"] in T.ALL_TYPES_MAP:          # named targets only: union targets are resolved through the converter under test
+                warm.append((T.ALL_TYPES_MAP[c["target"]], c["input"]))
     conv = conv_cfg.make_converter(warm)
     res = []
     for c in req["cases"]:
